@@ -37,8 +37,22 @@ func checkDownloadAndExtractWasiSDK(dir string) (wasiSdkRoot string, err error) 
 		return wasiSdkRoot, nil
 	}
 
-	err = downloadAndExtractArchive(wasiSdkUrl, dir, "WASI SDK")
-	return wasiSdkRoot, err
+	// Unpack next to dir and move only the SDK's own directory into it: dir is
+	// long-lived and may exist already (another SDK release, the rest of a
+	// removed copy), and a directory with content cannot be replaced by rename.
+	tempExtractDir := dir + ".extract"
+	os.RemoveAll(tempExtractDir) // left behind by a process that was killed
+	if err = downloadAndExtractArchive(wasiSdkUrl, tempExtractDir, "WASI SDK"); err != nil {
+		return "", err
+	}
+	defer os.RemoveAll(tempExtractDir)
+	if err = os.MkdirAll(dir, 0755); err != nil {
+		return "", err
+	}
+	if err = os.Rename(filepath.Join(tempExtractDir, wasiMacosSubdir), wasiSdkRoot); err != nil {
+		return "", fmt.Errorf("failed to rename WASI SDK directory: %w", err)
+	}
+	return wasiSdkRoot, nil
 }
 
 // checkDownloadAndExtractESPClang downloads and extracts ESP Clang binaries and libraries
